@@ -282,6 +282,10 @@ def templates():
     for nin in (1, 2, 3):
         for n in (1, 2):
             add('concat-1d-%din-n%d' % (nin, n), 'concat_case', cost=0.3, specs=[[[X], [n]]] * nin, axis=0)
+    # int labels meet real labels along the concatenation axis itself (either order): nothing is truncated
+    add('concat-1d-mixed-kinds-if', 'concat_case', cost=0.5, specs=[[[X], [2]], [[X], [2]]], axis=0, kinds={'0:x': 'i', '1:x': 'f'})
+    add('concat-1d-mixed-kinds-fi', 'concat_case', cost=0.5, specs=[[[X], [1]], [[X], [2]]], axis=0, kinds={'0:x': 'f', '1:x': 'i'})
+    add('concat-2d-mixed-kinds-if', 'concat_case', cost=1, specs=[[[Y, X], [2, 2]], [[Y, X], [2, 1]]], axis=1, kinds={'0:x': 'i', '1:x': 'f'}, share=[Y], by='pos')
     # the concatenation axis given as a negative position (NumPy's convention)
     add('concat-1d-negpos', 'concat_case', cost=0.3, specs=[[[X], [2]], [[X], [1]]], axis=0, by='negpos')
     add('concat-2d-negpos-0', 'concat_case', cost=1, specs=[[[X, Y], [2, 2]], [[X, Y], [1, 2]]], axis=0, by='negpos', share=[Y])
